@@ -113,6 +113,9 @@ type Result struct {
 	Property string `json:"property_id"`
 	Tier     string `json:"tier"`
 	Seed     int64  `json:"seed"`
+	// CheckpointPath: where Violate writes the result when a signature
+	// occurs for the first time ("" = nowhere)
+	CheckpointPath string `json:"-"`
 
 	mu          sync.Mutex
 	evaluations int64
@@ -228,13 +231,21 @@ func (r *Result) Inconclusive(format string, a ...interface{}) {
 // signature; the rest is counted.
 func (r *Result) Violate(sig, detail string, c interface{}) {
 	r.mu.Lock()
-	defer r.mu.Unlock()
 	r.vioCount[sig]++
+	first := r.vioCount[sig] == 1
 	if r.vioCount[sig] <= 3 {
 		if len(detail) > 4000 {
 			detail = detail[:4000] + "…"
 		}
 		r.violations = append(r.violations, Violation{Sig: sig, Detail: detail, Case: c})
+	}
+	path := r.CheckpointPath
+	r.mu.Unlock()
+	// A worker that hangs later (the library deadlocks under a mutant) is
+	// killed by the leg's watchdog: what it has found so far must not be
+	// lost, so the result file is written when a signature first occurs.
+	if first && path != "" {
+		_ = r.Write(path)
 	}
 }
 
